@@ -73,15 +73,18 @@ func mergeTable() []mDef {
 		{Kind: "type", Name: "Item", Ifaces: []string{"Node", "Named"}, Fields: []mField{{Name: "id", Type: "ID!"}, {Name: "label", Type: "String", Args: "(lang: String = \"en\")"},
 			{Name: "price", Type: "Float"}, {Name: "tags", Type: "[String!]"}, {Name: "matrix", Type: "[[Int]]"}, {Name: "state", Type: "State!"},
 			{Name: "pick", Type: "[Item]", Args: "(ids: [Int] = [1, 2], opt: Opt = {deep: {n: 1}, flag: true})"}, {Name: "owner", Type: "Owner"}, {Name: "old", Type: "String", Dirs: "@deprecated(reason: \"gone\")"},
-			{Name: "any", Type: "Thing"}, {Name: "when", Type: "Stamp"}}},
-		{Kind: "type", Name: "Owner", Ifaces: []string{"Node"}, Fields: []mField{{Name: "id", Type: "ID!"}, {Name: "name", Type: "String!"}, {Name: "items", Type: "[Item!]!", Args: "(first: Int = 10, after: String)"}, {Name: "since", Type: "Int", Args: "(cursor: String = \"null\", at: Stamp = 1, mode: State = NEW, tagsIn: [String] = [])"}, {Name: "tagged", Type: "String", Dirs: "@tag(name: \"a\") @tag(name: \"b\")"}}},
+			{Name: "any", Type: "Thing"}, {Name: "when", Type: "Stamp"}, {Name: "retired", Type: "Retired"}}},
+		{Kind: "type", Name: "Owner", Ifaces: []string{"Node"}, Fields: []mField{{Name: "id", Type: "ID!"}, {Name: "name", Type: "String!"}, {Name: "items", Type: "[Item!]!", Args: "(\"how many\" first: Int = 10, \"where to start\" after: String)"}, {Name: "since", Type: "Int", Args: "(\"the cursor\" cursor: String = \"null\", at: Stamp = 1, \"which ones\" mode: State = NEW, tagsIn: [String] = [])"}, {Name: "tagged", Type: "String", Dirs: "@tag(name: \"a\") @tag(name: \"b\")"}}},
 		{Kind: "union", Name: "Thing", Fields: []mField{{Name: "Item"}, {Name: "Owner"}}},
 		{Kind: "enum", Name: "State", Fields: []mField{{Name: "NEW"}, {Name: "USED", Dirs: "@deprecated(reason: \"x\")"}, {Name: "BROKEN"}}},
+		// everything deprecated: what is listed without includeDeprecated is an EMPTY list, not null
+		{Kind: "enum", Name: "Legacy", Fields: []mField{{Name: "OLD", Dirs: "@deprecated"}, {Name: "OLDER", Dirs: "@deprecated(reason: \"long gone\")"}}},
+		{Kind: "type", Name: "Retired", Fields: []mField{{Name: "was", Type: "Legacy", Dirs: "@deprecated"}, {Name: "until", Type: "Int", Dirs: "@deprecated(reason: \"see Item.when\")"}}},
 		{Kind: "input", Name: "Opt", Fields: []mField{{Name: "deep", Type: "Deep"}, {Name: "flag", Type: "Boolean", Args: ""}, {Name: "n", Type: "Int = 3"}}},
 		{Kind: "input", Name: "Deep", Fields: []mField{{Name: "n", Type: "Int"}}},
 		{Kind: "scalar", Name: "Stamp"},
 		{Kind: "directive", Name: "tag", Fields: []mField{{Args: "(name: String!)"}}, Locs: "repeatable FIELD_DEFINITION | OBJECT"},
-		{Kind: "directive", Name: "live", Fields: []mField{{Args: "(every: Int = 5)"}}, Locs: "FIELD | FIELD_DEFINITION"},
+		{Kind: "directive", Name: "live", Fields: []mField{{Args: "(\"seconds between updates\" every: Int = 5, \"random delay\" spread: Int, plain: Boolean)"}}, Locs: "FIELD | FIELD_DEFINITION"},
 	}
 }
 
